@@ -57,3 +57,36 @@ package blockchain
 //@   ensures result1 == nil && old(bs.saveSequence || bs.isParaChain) ==> called(saveBlockSequence) && ret1(saveBlockSequence) == nil
 //@   assert@call Block).Hash: arg0 == blockdetail.Block
 //@   loop 0 invariant true
+
+// ---- C32: push tasks hand out the sequence log in order, without gaps, and record only acknowledged data -
+//@ pure func (SequenceStore).GetBlockSequence
+//@ pure func (SequenceStore).LoadBlockBySequence
+//@ pure func (SequenceStore).GetBlockHeaderByHash
+//@ pure func (SequenceStore).LoadBlockLastSequence
+//@ pure func (*github.com/33cn/chain33/types.Header).Size
+//@ pure func github.com/33cn/chain33/types.PBToJSON
+//@ pure func (PostService).PostData
+//@ pure func (*Push).getPushData
+//@ pure func (*Push).getLastPushSeq
+//@ pure func (*Push).setLastPushSeq
+//@ pure func trigeRun
+//@ pure func (CommonStore).SetSync
+
+//@ func (*Push).getBlockDataBySeq [C32]
+//@   opt safety=assumed
+//@   frame allocates
+//@   ensures result2 == nil ==> result0 != nil && fresh(result0) && result0.Num == seq
+//@ func (*Push).getHeaderDataBySeq [C32]
+//@   opt safety=assumed
+//@   frame allocates
+//@   ensures result2 == nil ==> result0 != nil && fresh(result0) && result0.Num == seq
+
+// the task loop: data is requested from the sequence right after the last delivered one, at least one
+// sequence at a time, and the delivered mark is stored only after the subscriber acknowledged the post,
+// with the last sequence that post contained
+//@ func (*Push).runTask$1 [C32]
+//@   opt safety=assumed overflow=assumed panics=allowed
+//@   assert@call getPushData: arg2 == lastProcessedseq + 1 && arg3 >= 1 && lastProcessedseq < lastesBlockSeq && arg1 == subscribe
+//@   assert@call PostData: arg3 == ret1(getPushData) && arg2 == ret0(getPushData) && ret2(getPushData) == nil && arg1 == subscribe
+//@   assert@call setLastPushSeq: ret(PostData) == nil && arg2 == ret1(getPushData) && arg1 == subscribe.Name
+//@   loop 0 invariant true
